@@ -212,7 +212,7 @@ func vRunRouter[T comparable, C any](ops vRtOps[T, C], out *vOut, pcaps []bool, 
 		ct[i] = vNat(cl.pipe)
 	}
 	// the read-only flag of the input does not change capability or call order; it is part of the oracle only
-	term := fmt.Sprintf("CRouter %d %s %s %s %s %s", ops.id, vList(pc), vList(st), vBool(capObs), vBool(defCap), vList(ct))
+	term := fmt.Sprintf("(CRouter %d %s %s %s %s %s)", ops.id, vList(pc), vList(st), vBool(capObs), vBool(defCap), vList(ct))
 	// ---- oracle ----
 	want := map[int]int{}
 	for _, s := range sel {
@@ -288,6 +288,9 @@ func vRouterAll[T comparable, C any](ops vRtOps[T, C], out *vOut) {
 					tot *= k
 				}
 				for code := 0; code < tot; code++ {
+					if k == 3 && ln == 3 && code%3 != int(rng.Intn(3)) && vTier() == "quick" {
+						continue // quick tier: a third of the 27 length-3 selections over 3 pipelines
+					}
 					sel := make([]int, ln)
 					x := code
 					for j := range sel {
